@@ -1,16 +1,21 @@
 import QcelVerif.Model.Orient
+import QcelVerif.Model.OrientApprox
 import QcelVerif.Lib.Proto
 /-!
 Line-protocol driver for the C16 model, executed at `K = ℚ`.
 
 input :  `orient|d|m₁ … mₙ|x₁ y₁ z₁ … xₙ yₙ zₙ|v00 v01 v02 v10 … v22|l0 l1 l2`
          (every number an exact rational `p/q` of the double the implementation saw; `d` = geometry_noise)
-output:  `ok|K|Y|S|R|T`
+output:  `ok|K|Y|S|R|T|B`
            K : 3n integers, `float_prep(·, d)` of the model geometry in units of 10^-d
            Y : 3n integers, `⌊y·10^20⌋` of the model geometry before rounding
            S : the three column signs and, per column, the 0-based index of the deciding atom (-1: none)
            R : certificate residuals `⌈r·10^20⌉` for VᵀV-1, VVᵀ-1, VᵀTV-diag(l), then `asc` (1/0)
            T : the six independent tensor entries xx xy xz yy yz zz as `⌊t·10^12⌋`
+           B : `⌈S·10^30⌉ ⌈B_off·10^30⌉ ⌈B_diag·10^30⌉` = `inertiaBounds` (Model/OrientApprox.lean) for this call:
+               `S = Σ|mᵢ||xᵢ-c|²`, `B_off = r₃ + r₁·S`, `B_diag = r₃ + (3r₂ + r₁)·S` with `r` the exact residuals of `R`;
+               `Props/C16Approx.lean: inertia_diagonal_driver` proves that the inertia tensor of the model's oriented
+               geometry (the exact `Y`) is within `B_off` (off-diagonal) / `B_diag` (diagonal, of `l`) of `diag l`
          `err ZeroDivision` / `err Shape`;  anything unparsable: `bad-op`
 -/
 open QcelVerif QcelVerif.Orient QcelVerif.Proto
@@ -54,7 +59,9 @@ def stepC16 (line : String) : String :=
         let S := s!"{showRat st.1.2} {showRat st.2.1.2} {showRat st.2.2.2} {decider (g1.map (·.x))} {decider (g1.map (·.y))} {decider (g1.map (·.z))}"
         let R := s!"{scaledCeil 20 r.1} {scaledCeil 20 r.2.1} {scaledCeil 20 r.2.2} {asc}"
         let Ts := s!"{scaledFloor 12 T.xx} {scaledFloor 12 T.xy} {scaledFloor 12 T.xz} {scaledFloor 12 T.yy} {scaledFloor 12 T.yz} {scaledFloor 12 T.zz}"
-        s!"ok|{" ".intercalate (ks.map toString)}|{" ".intercalate (ys.map toString)}|{S}|{R}|{Ts}"
+        let B := inertiaBoundsOf r (absS ms (center ms xs))
+        let Bs := s!"{scaledCeil 30 B.1} {scaledCeil 30 B.2.1} {scaledCeil 30 B.2.2}"
+        s!"ok|{" ".intercalate (ks.map toString)}|{" ".intercalate (ys.map toString)}|{S}|{R}|{Ts}|{Bs}"
     | _, _, _, _, _ => "bad-op"
   | _ => "bad-op"
 
